@@ -1,7 +1,16 @@
 #!/bin/bash
-# Build the framework offline from files on disk: regenerate QibGen from /repo, build model, proofs, driver.
+# Build the framework offline from files on disk: regenerate QibGen from /repo, build model, proofs, drivers.
 set -e
 DIR="$(cd "$(dirname "$0")" && pwd)"
 export PYTHONDONTWRITEBYTECODE=1 PYTHONWARNINGS=ignore PATH="/opt/veriftools/lean/bin:$PATH"
 cd "$DIR/harness" && /venv/bin/python -W ignore -c "import translate; translate.regenerate(translate.ALL)" || echo "setup: translator failed (checks will report it)"
-cd "$DIR/lean" && lake build QibModel QibProofs qibdriver
+cd "$DIR/lean"
+EXES=$(/venv/bin/python - <<'PY'
+import re, os
+t = open("lakefile.toml").read()
+for m in re.finditer(r'\[\[lean_exe\]\]\s*name = "(\w+)"\s*root = "([\w.]+)"', t):
+    if os.path.exists(m.group(2).replace(".", "/") + ".lean"):
+        print(m.group(1))
+PY
+)
+lake build QibModel QibProofs $EXES
